@@ -8,6 +8,8 @@
 name: array_vremove
 define: U_REMOVE
 src: array.c
+native: array_list
+native_includes: array.c
 enforce: spif_array_remove
 backend: sat
 flags: --slice-formula
@@ -18,6 +20,8 @@ loops: 1
 name: array_vto_array
 define: U_TO_ARRAY
 src: array.c
+native: array_list
+native_includes: array.c
 enforce: spif_array_to_array
 backend: sat
 loops: 1
@@ -29,6 +33,8 @@ loops: 1
 name: array_viterator_next
 define: U_NEXT
 src: array.c, obj.c
+native: array_list
+native_includes: array.c
 enforce: spif_array_iterator_next
 backend: sat
 */
@@ -36,6 +42,8 @@ backend: sat
 name: array_viterator_has_next
 define: U_HAS_NEXT
 src: array.c, obj.c
+native: array_list
+native_includes: array.c
 enforce: spif_array_iterator_has_next
 backend: sat
 */
